@@ -23,14 +23,17 @@ def nontrivial(case):
 
 
 def strip_types_clash(r):
-    """Make sibling resource types consistent per name (W8): the first type seen for a name wins in the whole tree."""
+    """W8: a resource name is never additive in one place and multiplicative in another (the first of the two kinds seen
+    wins in the whole tree).  Definitions of type other / qubits are left alone: they do not propagate, so a routine's
+    own definition may well carry another type than its children's resource of the same name."""
     seen = {}
 
     def go(n):
         for c in n["children"]:
             go(c)
         for x in n["resources"]:
-            x["type"] = seen.setdefault(x["name"], x["type"])
+            if x["type"] in ("additive", "multiplicative"):
+                x["type"] = seen.setdefault(x["name"], x["type"])
     go(r)
     return r
 
